@@ -48,6 +48,16 @@ fn main() {
             conn::generate(seed, n, bias, &mut lines, &mut st);
             stats_json = st.json();
         }
+        "conn-pair" => {
+            let mut st = conn::Stats::new();
+            let bias: u64 = arg_val(&args, "--bias").and_then(|s| s.parse().ok()).unwrap_or(0);
+            let kind: u64 = arg_val(&args, "--kind").and_then(|s| s.parse().ok()).unwrap_or(10);
+            conn::generate_pair(seed, n, bias, kind, &mut lines, &mut st);
+            stats_json = st.json();
+        }
+        "conn-pair-replay" => {
+            lines.push(conn::replay_pair(&args[2..]));
+        }
         "conn-matrix" => {
             let mut st = conn::c16::CaseStats::new();
             let (cells, unreachable) = conn::c16::gen_matrix(&mut lines, &mut st);
